@@ -11,6 +11,7 @@ def cfg(name, phases, atoms=("a1", "a2"), kvs=(1,), nreg=2, keys=("k1",), maxsiz
 
 B3 = '{Leaf(V("a1")), Leaf(V("a2")), KV(1)}'
 B2 = '{Leaf(V("a1")), KV(1)}'
+B1 = '{Leaf(V("a1"))}'
 
 CONFIGS = [
     # every mutating family, from empty registers
@@ -21,6 +22,25 @@ CONFIGS = [
         shapes="ShUpTo(%s, 5) \\cup NodeSubjectNodes(%s, 9)" % (B3, B2)),
     cfg("obscure_q2", [["build"], ["elide", "compress", "encrypt"], ["elide", "compress", "encrypt"]], nreg=1, maxsize=12, maxt=2,
         shapes="ShUpTo(%s, 4)" % B3),
+    # symmetric encryption with a key-holding adversary (C08)
+    cfg("encrypt_q", [["build"], ["build", "encrypt", "elideset"], ["forge", "tamper", "addassertion", "encrypt"], ["decrypt"]],
+        keys=("k1", "k2"), maxsize=9, maxt=1, inv=("WellFormedInv", "C08Laws"), props=("C02Prop", "C08Prop", "C07Prop"), shapes="ShUpTo(%s, 3) \\cup {e \\in Sh(%s, 5) : IsNode(e)}" % (B2, B1)),
+    cfg("encrypt_t", [["build"], ["build", "encrypt", "elideset"], ["forge", "tamper", "addassertion", "encrypt"], ["decrypt"]],
+        keys=("k1", "k2"), maxsize=9, maxt=1, inv=("WellFormedInv", "C08Laws"), props=("C02Prop", "C08Prop", "C07Prop"), shapes="ShUpTo(%s, 4) \\cup {e \\in ShUpTo(%s, 5) : IsNode(e)}" % (B2, B2)),
+    # compression with corrupt / mis-declared payloads (C13)
+    cfg("compress_q", [["build"], ["build", "compress", "elideset"], ["compress", "forge", "tamper", "addassertion"], ["compress", "uncompress"]],
+        maxsize=9, maxt=1, inv=("WellFormedInv", "C13Laws"), props=("C02Prop", "C13Prop", "C07Prop"),
+        shapes="ShUpTo(%s, 3) \\cup {e \\in Sh(%s, 5) : IsNode(e)}" % (B2, B1)),
+    cfg("compress_t", [["build"], ["build", "compress", "elideset"], ["compress", "forge", "tamper", "addassertion"], ["compress", "uncompress"]],
+        maxsize=9, maxt=1, inv=("WellFormedInv", "C13Laws"), props=("C02Prop", "C13Prop", "C07Prop"),
+        shapes="ShUpTo(%s, 4) \\cup {e \\in ShUpTo(%s, 5) : IsNode(e)}" % (B2, B2)),
+    # comparison of an envelope with its obscured variants, copies and unrelated ones (C14)
+    cfg("compare_q", [["build"], ["build", "elide", "compress", "encrypt", "codec"], ["elide", "compress", "encrypt", "codec", "compare"], ["compare"]],
+        maxsize=9, maxt=2, inv=("WellFormedInv", "DeclaredDigestHonest", "C14Laws"), props=("C02Prop", "C14Prop", "C07Prop"),
+        shapes="ShUpTo(%s, 3) \\cup {e \\in ShUpTo(%s, 5) : IsNode(e)}" % (B2, B2)),
+    # traversal and queries on every shape and its obscured variants (C15)
+    cfg("query_q", [["build"], ["elideset", "compressone", "observe"], ["observe"]], nreg=1, maxsize=12, maxt=2,
+        shapes="ShUpTo(%s, 5) \\cup NodeSubjectNodes(%s, 9) \\cup Decorated(%s)" % (B3, B2, B2)),
     # an assertion and its obscured twin
     cfg("twin_q", [["build"], ["navigate"], ["elideone", "compressone", "navigate"], ["assertions"]], maxsize=9, maxt=1,
         shapes="{e \\in ShUpTo(%s, 5) : IsNode(e)}" % B2),
